@@ -13,7 +13,9 @@ import (
 	"verif/vlib"
 )
 
-var contribSet = []int64{0, 1, 2, 3, 5, 10, 11, 20, 25, 100, 1000000}
+// the last three are beyond 2^53: an implementation that takes a detour through
+// float64 loses chips there (ten players of 2^57 still fit an int64)
+var contribSet = []int64{0, 1, 2, 3, 5, 10, 11, 20, 25, 100, 1000000, 1<<53 + 1, 1<<54 + 3, 1<<57 + 5}
 
 func genVec(rt *rapid.T) Vec {
 	n := rapid.IntRange(2, 10).Draw(rt, "n")
